@@ -177,6 +177,14 @@ def generate(rng, n, tier="quick"):
         c["id"] = "C18-thm%04d" % k
         out.append((c, {"name": nm, "line": line, "col": col, "reason": "MissingVariable", "tag": tagsrc, "where": "thm", "chain": False, "written": L,
                         "payload": var}))
+    # … on very long lines too: the column is a count of characters, whatever its size (a minified one-line template)
+    for k, (L, tagsrc) in enumerate([("a\n" + "x" * 65534, "{{v}}"), ("a\n" + "x" * 65535, "{{v}}"), ("x" * 70000, "{{{v}}}"), ("\u00e9" * 66000 + "\n  ", "{{v}}"),
+                                     ("x" * 65535, "{{#with v}}y{{/with}}")]):
+        src = L + tagsrc + "R"
+        line, col = line_col(src, len(L))
+        c = session({"strict": True, "escape": "none"}, [("page", src)], {"api": "render_to_write", "name": "page"}, {"w": 1})
+        c["id"] = "C18-long%02d" % k
+        out.append((c, {"name": "page", "line": line, "col": col, "reason": "MissingVariable", "tag": tagsrc, "where": "thm", "chain": False, "written": L}))
     # the family of the Lean theorem C18.unknown_helper_points_at_the_tag: L ++ {{h 1}} ++ R, no helper h, either mode
     for k in range(max(20, n // 10)):
         r = rng.fork("thmh%d" % k)
